@@ -820,7 +820,7 @@ fn do_replay(path: &str) -> i32 {
     let v = simcore::read_json(path);
     let want_sig = v["signature"].as_str().unwrap_or("").to_string();
     let want_hash = v["event_hash"].as_str().unwrap_or("").to_string();
-    let (sig, hash, detail) = run_case_in_child(path, 300);
+    let (sig, hash, detail) = run_case_in_child(path, 60);
     println!("replayed: signature={sig}\n{detail}");
     if sig == "held" {
         println!("replay of {path}: property held (recorded signature {want_sig}); the tree no longer fails this trace");
@@ -854,6 +854,10 @@ fn minimise(c0: &Case, sig: &str, scratch: &str) -> (Case, Value) {
     };
     let budget = if in_process { 4000 } else { 60 };
     let mut c = c0.clone();
+    if sig.starts_with("hang-backstop") {
+        // every probe would cost the wall-clock backstop: report the case as generated
+        return (c, json!({"probes": 0, "note": "not minimised: each probe of a stalled run costs the wall-clock backstop"}));
+    }
     // 1. transport: no control events, one chunk
     let d = delivered(&c.events);
     {
@@ -981,6 +985,8 @@ pub fn main(args: &Args) -> i32 {
     let mut backstop_hits = 0u64;
     let mut lost_runs = 0u64;
     let mut suspects: Vec<(u64, String)> = Vec::new();
+    let mut aborted_early = false;
+    const MAX_SUSPECTS: usize = 4;
     loop {
         let mut busy = false;
         for w in 0..workers {
@@ -1053,6 +1059,23 @@ pub fn main(args: &Args) -> i32 {
                 }
             }
         }
+        if suspects.len() >= MAX_SUSPECTS {
+            // enough evidence that something kills or stalls runs: stop the batch instead of paying
+            // the backstop once per affected run
+            aborted_early = true;
+            queue.clear();
+            for slot in slots.iter_mut() {
+                if let Some(mut s) = slot.take() {
+                    let _ = s.child.kill();
+                    let _ = s.child.wait();
+                    lost_runs += s.hi - s.lo;
+                    for ext in ["json", "inflight", "traces", "nontrivial", "pairs"] {
+                        let _ = std::fs::remove_file(format!("{}.{ext}", s.out));
+                    }
+                }
+            }
+            break;
+        }
         if !busy && queue.is_empty() {
             break;
         }
@@ -1065,7 +1088,7 @@ pub fn main(args: &Args) -> i32 {
         let c = gen_case(&mut Rng::new(run_seed), &fx);
         let p = format!("{work_dir}/suspect-{idx}.json");
         simcore::write_json_atomic(&p, &json!({"case": c.to_json()}));
-        let (sig, _h, detail) = run_case_in_child(&p, backstop * 3);
+        let (sig, _h, detail) = run_case_in_child(&p, backstop * 2);
         if sig == "held" {
             println!("note: run {idx} was in flight when its worker ended ({how}) but completes on its own; not reported");
         } else if sig == "harness" {
@@ -1094,15 +1117,27 @@ pub fn main(args: &Args) -> i32 {
         println!("{l}");
     }
     let mut reported = Vec::new();
+    let mut hang_reports = 0;
     for (sig, idx, cnt, detail0) in new.iter().take(8) {
         let run_seed = rng::mix(base_seed, rng::domain(PROP), *idx);
         let c = gen_case(&mut Rng::new(run_seed), &fx);
         // abort-class signatures carry the entry-point suffix added above; probe on the bare class
-        let probe_sig = if sig.starts_with("abort:") || sig.starts_with("hang-backstop") { sig.rsplitn(2, ':').nth(1).unwrap_or(sig).to_string() } else { sig.clone() };
+        let probe_sig = if sig.starts_with("abort:") || sig.starts_with("hang-backstop") {
+            sig.strip_suffix(&format!(":{}", c.entry.name())).unwrap_or(sig).to_string()
+        } else {
+            sig.clone()
+        };
+        if probe_sig == "hang-backstop" {
+            hang_reports += 1;
+            if hang_reports > 2 {
+                println!("violation: signature={sig} runs={cnt} first_run={idx} :: (further stalled runs are not replayed one by one: each costs the wall-clock backstop)");
+                continue;
+            }
+        }
         let (cm, info) = minimise(&c, &probe_sig, &format!("{work_dir}/min-{idx}"));
         let path = format!("{}/replays/{PROP}-{}-{}.json", simcore::verif_dir(), base_seed, idx);
         simcore::write_json_atomic(&path, &json!({"case": cm.to_json()}));
-        let (rsig, rhash, rdetail) = run_case_in_child(&path, backstop * 3);
+        let (rsig, rhash, rdetail) = run_case_in_child(&path, backstop + 10);
         let (final_case, detail, hash) = if rsig == probe_sig { (cm, rdetail, rhash) } else { (c.clone(), detail0.clone(), String::new()) };
         let d = delivered(&final_case.events);
         simcore::write_json_atomic(
@@ -1111,7 +1146,7 @@ pub fn main(args: &Args) -> i32 {
                     "case": final_case.to_json(), "signature": probe_sig, "detail": detail, "event_hash": hash, "minimisation": info,
                     "delivered_text": String::from_utf8_lossy(&d[..d.len().min(400)])}),
         );
-        let (vsig, _, _) = run_case_in_child(&path, backstop * 3);
+        let (vsig, _, _) = run_case_in_child(&path, backstop + 10);
         if vsig != probe_sig {
             harness_error(&format!("replay file {path} did not reproduce in a fresh process ({vsig} vs {probe_sig})"));
         }
@@ -1121,7 +1156,7 @@ pub fn main(args: &Args) -> i32 {
     }
     let _ = std::fs::remove_dir_all(&work_dir);
     let mut probe_fail = Vec::new();
-    if tier == Tier::Thorough || runs >= 100_000 {
+    if !aborted_early && (tier == Tier::Thorough || runs >= 100_000) {
         for f in RestFault::ALL {
             if acc.fired.get(f.name()).copied().unwrap_or(0) == 0 {
                 probe_fail.push(f.name().to_string());
@@ -1174,6 +1209,7 @@ pub fn main(args: &Args) -> i32 {
             "peak_allocation": {"max_bytes_in_a_run": acc.max_peak, "max_ratio_to_input_x1000": acc.max_alloc_ratio_milli, "limit": "4 MiB + 256 x input bytes"},
             "simulated_time": {"unit": "read calls served (no clock in the crate)", "read_calls": acc.read_calls, "bytes_delivered": acc.bytes},
             "worker_process_deaths": process_deaths,
+            "batch_stopped_early_after_suspects": aborted_early,
             "wall_clock_backstop_hits": backstop_hits,
             "runs_lost_with_dead_workers (not counted in evaluations)": lost_runs,
             "runs_per_hour": if wall > 0.0 { (acc.runs as f64 / wall * 3600.0) as u64 } else { 0 },
